@@ -326,6 +326,13 @@ def extract():
     tf = _src("TerminalFr.py")
     cj = _func(tf, "TerminalFr", "conjugate")
     res["compound_list"] = _member(_find(_in_lists(cj, (tf,)), lambda l: "pc" in l and "bp" in l, "conjugate: compound tense list"))
+    # a participle / infinitive that the table marks non-existent (`"pr": null`: falloir, occire): guarded by
+    # `conjugation[t] is None` → morphoError (since commit c6b9f39), or `self.stem + None` → TypeError
+    res["nonfinite_none_is_morpho"] = any(
+        isinstance(n, ast.Compare) and len(n.ops) == 1 and isinstance(n.ops[0], (ast.Is, ast.IsNot))
+        and isinstance(n.comparators[0], ast.Constant) and n.comparators[0].value is None
+        and isinstance(n.left, ast.Subscript) and isinstance(n.left.slice, ast.Name) and n.left.slice.id == "t"
+        for n in ast.walk(cj))
     ta = None
     for node in ast.walk(cj):
         if isinstance(node, ast.Dict):
@@ -462,6 +469,8 @@ def generate():
     w("def elidedFirstWord : Bool := %s" % ("true" if r["elided_first_word"] else "false"))
     w("/-- ConstituentFr.sepWordREC: the characters of the word class beside `\\w` -/")
     w("def sepWordExtra : List Char := [%s]" % ", ".join("'%s'" % ("\\'" if c == "'" else c) for c in r["sep_word_extra"]))
+    w("/-- TerminalFr.conjugate, tenses b / pr whose table entry is null: `[[lemma]]` with a warning (true, since commit c6b9f39) or TypeError from `stem + None` (false) -/")
+    w("def nonFiniteNoneIsMorpho : Bool := %s" % ("true" if r["nonfinite_none_is_morpho"] else "false"))
     w("def cliticCases : List Str := %s" % lstrs(r["clitic_cases"]))
     w("def relativeStop : List Str := %s" % lstrs(r["relative_stop"]))
     w("def compoundList : List Str := %s" % lstrs(r["compound_list"]))
